@@ -19,7 +19,7 @@ open XknxVerif.Generated.DataSecure (algAuth algEnc svcData apciSecHigh apciSecL
 
 theorem evOf_plain (E : BlockFn) (ds : DS) (f : Frame) (innerOk : Bytes → Bool) (hp : f.payload.isSecure = false) :
     (evOf E ds f innerOk).secure = false ∧ (evOf E ds f innerOk).group = f.group
-      ∧ (evOf E ds f innerOk).keyed = (keyFor ds.keys f.dst).isSome := by
+      ∧ (evOf E ds f innerOk).keyed = (ds.keys.lookup f.dst).isSome := by
   unfold evOf
   cases hpl : f.payload with
   | secure s d => rw [hpl] at hp; simp [Payload.isSecure] at hp
@@ -31,7 +31,7 @@ theorem evOf_plain (E : BlockFn) (ds : DS) (f : Frame) (innerOk : Bytes → Bool
 it only goes to the key-issue handling, whose callbacks run iff it is a
 `TDataGroup` frame; the Data Secure state is unchanged. -/
 theorem plain_to_keyed_only_key_issue (E : BlockFn) (ds : DS) (f : Frame) (innerOk : Bytes → Bool) (key : Bytes)
-    (hp : f.payload.isSecure = false) (hg : f.group = true) (hk : keyFor ds.keys f.dst = some key) :
+    (hp : f.payload.isSecure = false) (hg : f.group = true) (hk : ds.keys.lookup f.dst = some key) :
     handle E (some ds) f innerOk = (some ds, .keyIssue (isTDataGroup f)) := by
   obtain ⟨h1, h2, h3⟩ := evOf_plain E ds f innerOk hp
   have hr : recvStep ds.senders (evOf E ds f innerOk) = (ds.senders, .dsError .plainToSecure) := by
@@ -39,9 +39,22 @@ theorem plain_to_keyed_only_key_issue (E : BlockFn) (ds : DS) (f : Frame) (inner
     simp [h1, h2, h3, hg, hk]
   simp only [handle, received, hr]
 
+/-- A usable (non-empty) key is in particular an entry of the key table. -/
+theorem keyFor_lookup (keys : List (Nat × Bytes)) (dst : Nat) (key : Bytes) (h : keyFor keys dst = some key) :
+    keys.lookup dst = some key := by
+  unfold keyFor at h
+  cases hl : keys.lookup dst with
+  | none => rw [hl] at h; simp at h
+  | some k =>
+    rw [hl] at h
+    simp only at h
+    split at h
+    · simp at h
+    · simpa using h
+
 /-- Corollary in the words of the property. -/
 theorem plain_to_keyed_never_delivered (E : BlockFn) (ds : DS) (f : Frame) (innerOk : Bytes → Bool) (key : Bytes)
-    (hp : f.payload.isSecure = false) (hg : f.group = true) (hk : keyFor ds.keys f.dst = some key) :
+    (hp : f.payload.isSecure = false) (hg : f.group = true) (hk : ds.keys.lookup f.dst = some key) :
     ∀ a s, (handle E (some ds) f innerOk).2 ≠ .telegram a s := by
   intro a s
   rw [plain_to_keyed_only_key_issue E ds f innerOk key hp hg hk]
@@ -49,7 +62,7 @@ theorem plain_to_keyed_never_delivered (E : BlockFn) (ds : DS) (f : Frame) (inne
 
 /-- Plain frames elsewhere (no key for the address, or point-to-point) pass unchanged, marked not secure. -/
 theorem plain_elsewhere_passes (E : BlockFn) (ds : DS) (f : Frame) (innerOk : Bytes → Bool)
-    (hp : f.payload.isSecure = false) (hk : f.group = false ∨ keyFor ds.keys f.dst = none) :
+    (hp : f.payload.isSecure = false) (hk : f.group = false ∨ ds.keys.lookup f.dst = none) :
     handle E (some ds) f innerOk = (some ds, .telegram f.payload.bytes false) := by
   obtain ⟨h1, h2, h3⟩ := evOf_plain E ds f innerOk hp
   have hr : recvStep ds.senders (evOf E ds f innerOk) = (ds.senders, .pass) := by
@@ -232,6 +245,11 @@ theorem no_data_secure (E : BlockFn) (f : Frame) (innerOk : Bytes → Bool) :
 /-- Non-vacuity: a parsed plain `GroupValueWrite` to the keyed address 1/2/3. -/
 example : Parsed ⟨0xBC60, true, 0, 0x1101, 0x0A03, 0, .plain [0x00, 0x81]⟩ :=
   ⟨by decide, by decide, by intro _ _ h; cases h⟩
+/-- An entry with an empty key still shields the address from plain frames (membership
+test), while secured traffic to it is refused / sent plain (truthiness test) – as the code does. -/
+example : handle (fun _ _ => List.replicate 16 0) (some ⟨[(0x0A03, [])], [], 1⟩)
+    ⟨0xBC60, true, 0, 0x1101, 0x0A03, 0, .plain [0x00, 0x81]⟩ (fun _ => true)
+  = (some ⟨[(0x0A03, [])], [], 1⟩, .keyIssue true) := by decide
 example : handle (fun _ _ => List.replicate 16 0) (some ⟨[(0x0A03, [1])], [], 1⟩)
     ⟨0xBC60, true, 0, 0x1101, 0x0A03, 0, .plain [0x00, 0x81]⟩ (fun _ => true)
   = (some ⟨[(0x0A03, [1])], [], 1⟩, .keyIssue true) := by decide
